@@ -94,6 +94,7 @@ def generate(rng, tier):
             if r < 0.08:
                 mapping = mapping[:-1] if total > 1 else mapping + [0]
             case["members"] = mshapes
+            case["member_kinds"] = [rng.choice(["square", "square", "extra_world", "drop_world"]) for _ in mshapes]
             case["mapping"] = mapping
             case["fix_shapes"] = rng.random() < 0.85      # make shared axes agree in length
             case["inconsistent"] = rng.random() < 0.3
@@ -266,22 +267,9 @@ def run(case):
                 if not np.allclose(back, q[fin], atol=1e-6, rtol=0):
                     fails.append(f"round trip of {q[fin][0].tolist()} gives {back[0].tolist()} (orders {po}/{wo})")
         else:
-            mshapes = [list(s) for s in case["members"]]
             mapping = list(case["mapping"])
-            total = sum(len(s) for s in mshapes)
-            # lengths along shared axes (pixel order of each member = reversed array shape)
-            if case["fix_shapes"] and len(mapping) == total:
-                lens = {}
-                flat = [(mi, ax) for mi, s in enumerate(mshapes) for ax in range(len(s))]
-                for i, (mi, ax) in enumerate(flat):       # i-th pixel axis overall; member pixel axis ax
-                    arr_ax = len(mshapes[mi]) - 1 - ax
-                    lens.setdefault(mapping[i], mshapes[mi][arr_ax])
-                    mshapes[mi][arr_ax] = lens[mapping[i]]
-            members = []
-            for mi, s in enumerate(mshapes):
-                w = W.make_probe(random.Random(case["wseed"] + mi), s, True, kind="coupled" if case["fam"] == "probe_coupled" else "sep")
-                w._names = [f"m{mi}{n}" for n in w._names]
-                members.append(w)
+            members = _members(case)
+            total = sum(m.pixel_n_dim for m in members)
             res["model_req"] = {"op": "compound", "members": [wdesc(m, True) for m in members], "mapping": mapping,
                                 "pixels": [[frac(x) for x in p] for p in case["pixels"]]}
             try:
@@ -461,8 +449,12 @@ def _members(case):
             lens.setdefault(mapping[i], mshapes[mi][arr_ax])
             mshapes[mi][arr_ax] = lens[mapping[i]]
     members = []
-    for mi, s in enumerate(mshapes):
-        members.append(W.make_probe(random.Random(case["wseed"] + mi), s, True, kind="coupled" if case["fam"] == "probe_coupled" else "sep"))
+    kinds = case.get("member_kinds") or ["square"] * len(mshapes)
+    for mi, (s, k) in enumerate(zip(mshapes, kinds)):
+        w = W.make_probe(random.Random(case["wseed"] + mi), s, True, kind="coupled" if case["fam"] == "probe_coupled" else "sep",
+                         extra_world=(k == "extra_world"), drop_world=(k == "drop_world"))
+        w._names = [f"m{mi}{n}" for n in w._names]
+        members.append(w)
     return members
 
 
